@@ -3,7 +3,8 @@
    Hypotheses: the format can be augmented with the command-name pseudo-arguments (true of every
    format built through ArgsFormat, C06) and its options are valid objects (multi-valued => requires
    a value; defaults are None/bool/int/str) - opts_ok, see C07 normal form. *)
-From Clikit Require Import Base.Prelude Base.Res Model.Conv Model.Format Model.Parser Proofs.ParserLemmas.
+From Clikit Require Import Base.Prelude Base.Res Model.Conv Model.Format Model.Parser Proofs.ParserLemmas
+     Proofs.ClassifyLemmas.
 
 (* For EVERY token list (no length bound) and both modes: a parse either succeeds or ends in one of the
    three documented kinds - no other kind of exception - and in lenient mode never in a parse error. *)
@@ -26,3 +27,219 @@ Print Assumptions lenient_total.
 Theorem lenient_extends_strict : forall f toks r, parse f false toks = Ok r -> parse f true toks = Ok r.
 Proof. exact lenient_extends_strict_lemma. Qed.
 Print Assumptions lenient_extends_strict.
+
+(* ======================= the classification clauses: WHICH line gives WHICH error =======================
+   Vocabulary (Proofs/ClassifyLemmas.v):
+     long_tok b = "--" ++ b, short_tok b = "-" ++ b;  no_eq s: no "=" in s;
+     scans f' pre st: the strict token loop processes all of pre without error and ends in scratch state st
+       ("every token before is processed without error");  existsb is_dd pre = false: no "--" among them;
+     listed f o: o is among the options the format lists (own and inherited);  opt_named o n: n is the long or
+       the short name of o;  unknown_name f n: n names no listed option;  is_flag f x: x is the short name of a
+       listed option that takes no value;
+     no_value_next rest: nothing follows, or an empty token, or a token that starts with "-";
+     plain tok: empty, "-", or not starting with "-";  positional p tok: read as a positional argument when the
+       parse_options switch is p;  no_multi ar: no multi-valued argument;
+     ar: the argument slots of f' - one per command name first, then the declared arguments;  cns: the
+       command-name slots;  skip_names vals cns 0 = (vals', _, _): vals' are the positionals that remain once the
+       leading ones that spell the command names, in order, are set aside;
+     args_named l: every argument is listed under its own name (true of every format built through the API);
+     bad_arg / bad_opt f n v: v is stored for argument / option n of f and its typed conversion fails.
+   In strict mode the first failing iteration of the token loop decides the result: *)
+Theorem first_failing_token_decides : forall f f' ar cns toks p st tok rest k,
+  aug_format f = Ok (f', ar, cns) ->
+  reach f' false true ps_empty toks p st (tok :: rest) ->
+  step f' false p st tok rest = Err k ->
+  parse f false toks = Err k.
+Proof. exact strict_error_at. Qed.
+Print Assumptions first_failing_token_decides.
+
+(* ---- clause 1: an unknown option -> NoSuchOptionException ---- *)
+Theorem unknown_long_option_rejected : forall f f' ar cns pre st,
+  aug_format f = Ok (f', ar, cns) -> scans f' pre st -> existsb is_dd pre = false ->
+  forall name rest, name <> [] -> no_eq name = true -> unknown_name f name = true ->
+  parse f false (pre ++ long_tok name :: rest) = Err NoSuchOption.
+Proof. exact unknown_long_option_listed. Qed.
+Print Assumptions unknown_long_option_rejected.
+Theorem unknown_long_option_with_value_rejected : forall f f' ar cns pre st,
+  aug_format f = Ok (f', ar, cns) -> scans f' pre st -> existsb is_dd pre = false ->
+  forall name value rest, no_eq name = true -> unknown_name f name = true ->
+  parse f false (pre ++ long_tok (name ++ EQ :: value) :: rest) = Err NoSuchOption.
+Proof. exact unknown_long_option_eq_listed. Qed.
+Print Assumptions unknown_long_option_with_value_rejected.
+(* "-x..." and, behind known flags, "-abx..." *)
+Theorem unknown_short_option_rejected : forall f f' ar cns pre st,
+  aug_format f = Ok (f', ar, cns) -> scans f' pre st -> existsb is_dd pre = false ->
+  forall flags c more rest,
+  starts_dash (flags ++ c :: more) = false -> forallb (is_flag f) flags = true -> unknown_name f [c] = true ->
+  parse f false (pre ++ short_tok (flags ++ c :: more) :: rest) = Err NoSuchOption.
+Proof. exact unknown_short_option_listed. Qed.
+Print Assumptions unknown_short_option_rejected.
+Theorem unknown_option_lenient_ok : forall f f' ar cns,
+  aug_format f = Ok (f', ar, cns) -> opts_ok f' ->
+  forall pre body rest, parse f true (pre ++ long_tok body :: rest) <> Err NoSuchOption /\
+                        parse f true (pre ++ short_tok body :: rest) <> Err NoSuchOption.
+Proof. exact unknown_option_lenient. Qed.
+Print Assumptions unknown_option_lenient_ok.
+
+(* ---- clause 2: a value given to a flag -> CannotParseArgsException ---- *)
+Theorem flag_given_value_rejected : forall f f' ar cns pre st,
+  aug_format f = Ok (f', ar, cns) -> scans f' pre st -> existsb is_dd pre = false ->
+  forall o name value rest,
+  listed f o -> opt_named o name = true -> no_eq name = true -> o_accepts o = false ->
+  parse f false (pre ++ long_tok (name ++ EQ :: value) :: rest) = Err CannotParse.
+Proof. exact flag_given_value_listed. Qed.
+Print Assumptions flag_given_value_rejected.
+Theorem flag_given_value_lenient_ok : forall f f' ar cns,
+  aug_format f = Ok (f', ar, cns) -> opts_ok f' ->
+  forall pre name value rest, parse f true (pre ++ long_tok (name ++ EQ :: value) :: rest) <> Err CannotParse.
+Proof. exact flag_given_value_lenient. Qed.
+Print Assumptions flag_given_value_lenient_ok.
+
+(* ---- clause 3: a required option value left out -> CannotParseArgsException ---- *)
+Theorem option_value_missing_rejected : forall f f' ar cns pre st,
+  aug_format f = Ok (f', ar, cns) -> scans f' pre st -> existsb is_dd pre = false ->
+  forall o name rest,
+  listed f o -> opt_named o name = true -> name <> [] -> no_eq name = true -> o_required o = true ->
+  no_value_next rest = true ->
+  parse f false (pre ++ long_tok name :: rest) = Err CannotParse.
+Proof. exact option_value_missing_listed. Qed.
+Print Assumptions option_value_missing_rejected.
+(* "--name=" *)
+Theorem option_value_empty_rejected : forall f f' ar cns pre st,
+  aug_format f = Ok (f', ar, cns) -> scans f' pre st -> existsb is_dd pre = false ->
+  forall o name rest,
+  listed f o -> opt_named o name = true -> no_eq name = true -> o_required o = true ->
+  parse f false (pre ++ long_tok (name ++ [EQ]) :: rest) = Err CannotParse.
+Proof. exact option_value_empty_listed. Qed.
+Print Assumptions option_value_empty_rejected.
+(* "-n" and, behind known flags, "-abn" *)
+Theorem short_option_value_missing_rejected : forall f f' ar cns pre st,
+  aug_format f = Ok (f', ar, cns) -> scans f' pre st -> existsb is_dd pre = false ->
+  forall o flags c rest,
+  listed f o -> o_short o = Some [c] -> o_required o = true ->
+  starts_dash (flags ++ [c]) = false -> forallb (is_flag f) flags = true -> no_value_next rest = true ->
+  parse f false (pre ++ short_tok (flags ++ [c]) :: rest) = Err CannotParse.
+Proof. exact short_option_value_missing_listed. Qed.
+Print Assumptions short_option_value_missing_rejected.
+Theorem option_value_missing_lenient_ok : forall f f' ar cns,
+  aug_format f = Ok (f', ar, cns) -> opts_ok f' ->
+  forall pre body rest, parse f true (pre ++ long_tok body :: rest) <> Err CannotParse /\
+                        parse f true (pre ++ short_tok body :: rest) <> Err CannotParse.
+Proof. exact option_value_missing_lenient. Qed.
+Print Assumptions option_value_missing_lenient_ok.
+
+(* ---- clause 4: a required argument is missing -> CannotParseArgsException ----
+   general form: the loop goes through the whole line; the i-th declared argument (0-based) is required and
+   at most i positionals remain for the declared arguments *)
+Theorem missing_argument_rejected : forall f f' ar cns toks st1 vals' cns' k i n a,
+  aug_format f = Ok (f', ar, cns) -> args_named (get_arguments_all f) ->
+  scans f' toks st1 ->
+  skip_names (flatten (ps_args st1)) cns 0 = (vals', cns', k) ->
+  nth_error ar (length cns + i) = Some (n, a) -> a_required a = true -> length vals' <= i ->
+  parse f false toks = Err CannotParse.
+Proof. exact missing_argument. Qed.
+Print Assumptions missing_argument_rejected.
+(* option-free lines, formats without multi-valued argument: the hypotheses are on the tokens themselves *)
+Theorem missing_argument_plain_rejected : forall f f' ar cns toks vals' cns' k i n a,
+  aug_format f = Ok (f', ar, cns) -> args_named (get_arguments_all f) -> no_multi ar = true ->
+  forallb plain toks = true -> length toks <= length ar ->
+  skip_names toks cns 0 = (vals', cns', k) ->
+  nth_error ar (length cns + i) = Some (n, a) -> a_required a = true -> length vals' <= i ->
+  parse f false toks = Err CannotParse.
+Proof. exact missing_argument_plain. Qed.
+Print Assumptions missing_argument_plain_rejected.
+Theorem missing_argument_lenient_ok : forall f f' ar cns,
+  aug_format f = Ok (f', ar, cns) -> opts_ok f' -> forall toks, parse f true toks <> Err CannotParse.
+Proof. exact missing_argument_lenient. Qed.
+Print Assumptions missing_argument_lenient_ok.
+
+(* ---- clause 5: more positional arguments than declared (no multi-valued argument) -> CannotParseArgsException ----
+   found in the loop: every slot is taken when one more positional token comes *)
+Theorem extra_positional_rejected : forall f f' ar cns toks p st tok rest,
+  aug_format f = Ok (f', ar, cns) ->
+  reach f' false true ps_empty toks p st (tok :: rest) ->
+  positional p tok = true -> no_multi (get_arguments_all f') = true ->
+  length (get_arguments_all f') <= length (ps_args st) ->
+  parse f false toks = Err CannotParse.
+Proof. exact extra_positional_at. Qed.
+Print Assumptions extra_positional_rejected.
+(* found when the values are re-aligned against omitted command names *)
+Theorem too_many_after_realign_rejected : forall f f' ar cns toks st1 vals' cns' k,
+  aug_format f = Ok (f', ar, cns) -> scans f' toks st1 ->
+  skip_names (flatten (ps_args st1)) cns 0 = (vals', cns', k) ->
+  no_multi ar = true -> length ar - length cns < length vals' ->
+  parse f false toks = Err CannotParse.
+Proof. exact too_many_after_realign. Qed.
+Print Assumptions too_many_after_realign_rejected.
+(* option-free lines, either way: more plain tokens than declared arguments once the spelled command names are
+   discounted *)
+Theorem too_many_plain_rejected : forall f f' ar cns toks vals' cns' k,
+  aug_format f = Ok (f', ar, cns) -> args_named (get_arguments_all f) -> no_multi ar = true ->
+  forallb plain toks = true -> skip_names toks cns 0 = (vals', cns', k) ->
+  length ar - length cns < length vals' ->
+  parse f false toks = Err CannotParse.
+Proof. exact too_many_plain. Qed.
+Print Assumptions too_many_plain_rejected.
+Theorem too_many_positionals_lenient_ok : forall f f' ar cns,
+  aug_format f = Ok (f', ar, cns) -> opts_ok f' ->
+  forall pre tok rest, parse f true (pre ++ tok :: rest) <> Err CannotParse.
+Proof. exact too_many_positionals_lenient. Qed.
+Print Assumptions too_many_positionals_lenient_ok.
+
+(* ---- clause 6: a value that does not convert to the declared type -> ValueError ----
+   general forms: the line gets through the token loop, the re-alignment and the required-argument check,
+   and a value then stored for an argument / option does not convert *)
+Theorem bad_argument_value_rejected : forall f f' ar cns toks st1 st2 n v,
+  aug_format f = Ok (f', ar, cns) -> scans f' toks st1 ->
+  insert_missing ar cns false st1 = Ok st2 -> missing_required ar st2 = false ->
+  In (n, v) (ps_args st2) -> bad_arg f n v ->
+  parse f false toks = Err ValueError.
+Proof. exact bad_argument_value. Qed.
+Print Assumptions bad_argument_value_rejected.
+Theorem bad_option_value_rejected : forall f f' ar cns toks st1 st2 n v,
+  aug_format f = Ok (f', ar, cns) -> opts_ok f' -> scans f' toks st1 ->
+  insert_missing ar cns false st1 = Ok st2 -> missing_required ar st2 = false ->
+  In (n, v) (ps_opts st1) -> bad_opt f n v ->
+  parse f false toks = Err ValueError.
+Proof. exact bad_option_value. Qed.
+Print Assumptions bad_option_value_rejected.
+(* "--name=value" put behind a line that the strict parser accepts *)
+Theorem bad_option_value_last_rejected : forall f f' ar cns pre r name value o' o k0,
+  aug_format f = Ok (f', ar, cns) ->
+  parse f false pre = Ok r -> existsb is_dd pre = false ->
+  no_eq name = true -> value <> [] ->
+  has_option f' name true = true -> get_option f' name true = Ok o' -> o_accepts o' = true -> o_multi o' = false ->
+  has_option f name true = true -> get_option f name true = Ok o -> o_accepts o = true -> o_multi o = false ->
+  parse_typed (o_type o) (o_nullable o) (VStr value) = Err k0 ->
+  parse f false (pre ++ [long_tok (name ++ EQ :: value)]) = Err ValueError.
+Proof. exact bad_option_value_last. Qed.
+Print Assumptions bad_option_value_last_rejected.
+(* such a line is rejected in exactly the same way in lenient mode *)
+Theorem value_error_mode_independent : forall f f' ar cns toks st1 st2,
+  aug_format f = Ok (f', ar, cns) -> scans f' toks st1 ->
+  insert_missing ar cns false st1 = Ok st2 -> missing_required ar st2 = false ->
+  parse f true toks = parse f false toks.
+Proof. exact modes_agree_after_scan. Qed.
+Print Assumptions value_error_mode_independent.
+
+(* ---- the first two theorems of this file again, under a hypothesis that formats with multi-valued options meet ----
+   opts_ok asks conv_input (o_default o) of every option, and a multi-valued option keeps the list [] as default
+   (conv_input (VList []) = false; ClassifyLemmas.ex_h_not_opts_ok).  opts_ok_w asks it only of the options whose
+   value is not required - the only ones whose default is ever stored: opts_ok f' -> opts_ok_w f'. *)
+Theorem strict_error_kinds_w : forall f len toks f' arguments cns,
+  aug_format f = Ok (f', arguments, cns) -> opts_ok_w f' ->
+  forall k, parse f len toks = Err k -> allowed k /\ (len = true -> k = ValueError).
+Proof. exact parse_error_kinds_w. Qed.
+Print Assumptions strict_error_kinds_w.
+Theorem lenient_total_w : forall f f' ar cns toks,
+  aug_format f = Ok (f', ar, cns) -> opts_ok_w f' ->
+  parse f true toks <> Err NoSuchOption /\ parse f true toks <> Err CannotParse.
+Proof. exact lenient_no_parse_error_w. Qed.
+Print Assumptions lenient_total_w.
+Theorem bad_option_value_rejected_w : forall f f' ar cns toks st1 st2 n v,
+  aug_format f = Ok (f', ar, cns) -> opts_ok_w f' -> scans f' toks st1 ->
+  insert_missing ar cns false st1 = Ok st2 -> missing_required ar st2 = false ->
+  In (n, v) (ps_opts st1) -> bad_opt f n v ->
+  parse f false toks = Err ValueError.
+Proof. exact bad_option_value_w. Qed.
+Print Assumptions bad_option_value_rejected_w.
